@@ -21,7 +21,8 @@ func init() {
 			tile := p["tile-complete-terms"] >= 3 && p["tile-label-boundaries"] > 0 && p["tile-instants"] > p["tile-nobody-instants"]
 			acc := p["acc-accepted"] > 0 && p["acc-bad-refused"] > 0
 			cmp := p["compact-proof-accepted"] > 0 && p["compact-proof-refused"] > 0
-			return tile || acc || cmp
+			up := p["upgrade-in-force"] > 0 && p["upgrade-old-producer-refused"] > 0 && p["upgrade-new-rule-accepted"] > 0
+			return tile || acc || cmp || up
 		},
 		Level: "exploration",
 	}
